@@ -726,7 +726,8 @@ pub fn gen_reg_world(rng: &mut Rng) -> RegWorld {
               }
               t
             }
-            3 => format!("npm:chalk@{}", rng.pick(&["5", "4.1.0"])),
+            // several specifiers may share one npm requirement
+            3 => format!("npm:chalk@{}{}", rng.pick(&["5", "4.1.0"]), rng.pick(&["", "", "/lib/a.js", "/index.js"])),
             4 if allow_rel => "./internal.ts".to_string(),
             5 => {
               let (n, ver) = rng.pick(&all_nv).clone();
@@ -780,6 +781,9 @@ pub fn gen_reg_world(rng: &mut Rng) -> RegWorld {
   }
   if rng.chance(1, 10) {
     main_imports.push(Imp::Static("npm:chalk@5".into()));
+    if rng.coin() {
+      main_imports.push(Imp::Static("npm:chalk@5/lib/a.js".into()));
+    }
   }
   let mut app = vec![("file:///main.ts".to_string(), main_imports)];
   let mut roots = vec!["file:///main.ts".to_string()];
